@@ -5,6 +5,7 @@
    records, commit/discard/close) with the reads and sequence numbers observed along the way — the
    transaction machine of Lsm/Txn.v must predict every one of them. *)
 From GL Require Export Corr.LsmRun.
+From GL Require Export Corr.C11BytesRun.      (* the byte-level transaction cases (KTxnBytes) *)
 From GL Require Import Base.Bytes Codec.IKey Corr.Cmps Gen.Consts Gen.Inst Lsm.Lsm Lsm.Compact Lsm.History Lsm.Txn.
 From Coq Require Import String.
 
